@@ -39,8 +39,11 @@ OUTSIDE = 'float event times / timesteps; more events; timelines nested in ' \
 
 class Holder(Process):
     def ports_schema(self):
-        return {'store': {v: {'_default': 0, '_emit': True}
-                          for v in self.parameters['vars']}}
+        leaves = {v: {'_default': 0, '_emit': True}
+                  for v in self.parameters['vars']}
+        if self.parameters.get('nested'):
+            return {'store': {'sub': leaves}}
+        return {'store': leaves}
 
     def next_update(self, timestep, states):
         return {}
@@ -57,6 +60,13 @@ def jobs(tier):
                     if entry == 'add_timeline' and (n == 4 or shared):
                         continue
                     calls = 1 if (tier == 'quick' or n == 4) else 2
+                    if entry == 'direct' and n == 2:
+                        out.append(dict(
+                            name='n2-tau%d-%s-nested' % (
+                                tau, 'shared' if shared else 'distinct'),
+                            n=n, tau=tau, shared=shared, entry=entry, T=T,
+                            calls=1, nested=True,
+                            budget_s=100 if tier == 'quick' else 900))
                     out.append(dict(
                         name='n%d-tau%d-%s-%s-M%d' % (
                             n, tau, 'shared' if shared else 'distinct',
@@ -84,10 +94,12 @@ def body(ctx, cfg):
         var_of = ['v%d' % i for i in range(n)]
     variables = sorted(set(var_of))
     init = {v: ctx.int('i', -5, 0) for v in variables}
-    timeline = [(times[i], {('store', var_of[i]): vals[i]}) for i in range(n)]
+    nested = bool(cfg.get('nested'))
+    key = (lambda v: ('store', 'sub', v)) if nested else (lambda v: ('store', v))
+    timeline = [(times[i], {key(var_of[i]): vals[i]}) for i in range(n)]
 
     sink = stubs.reset_sink()
-    holder = Holder({'vars': variables})
+    holder = Holder({'vars': variables, 'nested': nested})
     if cfg['entry'] == 'direct':
         tp = TimelineProcess({'timeline': timeline, 'time_step': tau})
         processes = {'timeline': tp, 'h': holder}
@@ -108,7 +120,8 @@ def body(ctx, cfg):
         return u
     tp.next_update = logged
     e = Engine(processes=processes, topology=topology,
-               initial_state={'store': dict(init)},
+               initial_state={'store': {'sub': dict(init)} if nested
+                              else dict(init)},
                emitter={'type': 'vsym_rec'}, display_info=False)
     R = 0
     for j in range(cfg['calls']):
@@ -132,7 +145,7 @@ def body(ctx, cfg):
         row_t = row['time']
         for v in variables:
             ev = [j for j in range(n) if var_of[j] == v]
-            got = row['store'][v]
+            got = (row['store']['sub'] if nested else row['store'])[v]
             alts = [AND([NOT(fired(j, row_t)) for j in ev]
                         + [EQ(got, init[v])])]
             for j in ev:
@@ -145,7 +158,7 @@ def body(ctx, cfg):
     for row in sink['rows']:
         ctx.observe('t', row['time'])
         for v in variables:
-            ctx.observe(v, row['store'][v])
+            ctx.observe(v, (row['store']['sub'] if nested else row['store'])[v])
     ctx.claim('C19.rows', AND(row_claims), sig='timeline-rows',
               info=lambda: dict(timeline=[(times[i], var_of[i], vals[i])
                                           for i in range(n)],
@@ -156,7 +169,8 @@ def body(ctx, cfg):
         for j in range(n):
             cnt = 0
             for u in returned:
-                if var_of[j] in u.get('store', {}):
+                if var_of[j] in (u.get('store', {}).get('sub', {}) if nested
+                                 else u.get('store', {})):
                     cnt += 1
             once.append(EQ(ite(invoked[j], 1, 0), cnt))
         ctx.claim('C19.once', AND(once), sig='timeline-once',
